@@ -43,10 +43,11 @@ try:
         ok = False
     rcb, ob = sh("go build ./...", cwd=wt)
     ran.append("go build: rc=%d" % rcb)
-    for attempt in range(3):  # TestRequestStatVFS compares free disk blocks twice: flaky while the disk is busy
-        rcs, os_ = sh("go test -vet=off -count=1 ./...", cwd=wt)
+    for attempt in range(6):  # TestRequestStatVFS compares free disk blocks twice: flaky while the disk is busy;
+        # the pinned suite listens on the fixed path /tmp/rstest.sock, so two suite runs must not overlap
+        rcs, os_ = sh("flock /tmp/vf-pinned-suite.lock go test -vet=off -count=1 ./...", cwd=wt)
         ran.append("existing suite with the change (attempt %d): rc=%d" % (attempt + 1, rcs))
-        if rcs == 0 or "TestRequestStatVFS" not in os_:
+        if rcs == 0 or ("TestRequestStatVFS" not in os_ and "rstest.sock" not in os_):
             break
     shutil.copy(demo, os.path.join(wt, "zz_seed_demo_test.go"))
     rc1, o1 = sh("go test -vet=off -count=1 -run '^TestSeedDemo$' .", cwd=wt)
@@ -60,10 +61,11 @@ finally:
     shutil.rmtree(wt, ignore_errors=True)
 
 results = {}
+AREPO = os.environ.get("VERIF_REPO", "/repo")  # a scratch copy of /repo lets several seeds be checked side by side
 if valid:
-    st = subprocess.run(["git", "-C", "/repo", "status", "--porcelain"], capture_output=True, text=True).stdout.strip()
+    st = subprocess.run(["git", "-C", AREPO, "status", "--porcelain"], capture_output=True, text=True).stdout.strip()
     assert st == "", "/repo is not clean: " + st
-    rc, o = sh(["git", "-C", "/repo", "apply", patch])
+    rc, o = sh(["git", "-C", AREPO, "apply", patch])
     assert rc == 0, o
     try:
         for cid in [prop] + extra:
@@ -85,8 +87,8 @@ if valid:
                     results[cid]["replay_saved"] = "replays/%s/%s.json" % (cid, name)
             print("CHECK %s on seed %s: exit %d %s" % (cid, name, rc, keys[:4]))
     finally:
-        sh(["git", "-C", "/repo", "checkout", "--", "."])
-        st = subprocess.run(["git", "-C", "/repo", "status", "--porcelain"], capture_output=True, text=True).stdout.strip()
+        sh(["git", "-C", AREPO, "checkout", "--", "."])
+        st = subprocess.run(["git", "-C", AREPO, "status", "--porcelain"], capture_output=True, text=True).stdout.strip()
         print("repo restored:", "clean" if st == "" else st)
 
 d = os.path.join(ROOT, "seeded", name)
